@@ -2,6 +2,7 @@ package main
 
 import (
 	"fmt"
+	"regexp"
 	"go/token"
 	"go/types"
 	"strconv"
@@ -73,6 +74,9 @@ type Contract struct {
 	Dyn      map[string][]string // param name -> possible dynamic types (closed world for interface params)
 	Uses     []LemmaUse
 	WritesVia []WritesVia
+	NoAlloc  bool      // the function allocates nothing (checked on the callee, used at call sites: allocation counter unchanged)
+	Safety   []string  // properties that own this function's safety side-conditions (nopanic/overflow/pre@); empty = all props
+	Functional string  // name of the ufunc this function's single result equals (deterministic function of its arguments)
 	CallsOnce string   // name of a func-typed parameter that the (assumed) callee calls exactly once, synchronously
 	Repeats   string   // name of a func-typed parameter that the (assumed) callee calls any number of times
 	RepeatReq []Clause // what the callee guarantees about the arguments of each such call ($a0, $a1, ...)
@@ -207,6 +211,12 @@ func parseModifies(text, pos string) ([]ModItem, error) {
 			m.Kind, m.X = "map", e
 		case strings.HasPrefix(it, "maps[") && strings.HasSuffix(it, "]"):
 			m.Kind, m.T = "tmap", it[5:len(it)-1]
+		case strings.HasPrefix(it, "fields(") && strings.HasSuffix(it, ")"):
+			e, err := ParseExpr(it[7 : len(it)-1])
+			if err != nil {
+				return nil, fmt.Errorf("%s: %v", pos, err)
+			}
+			m.Kind, m.X = "fields", e
 		case strings.HasPrefix(it, "cell(") && strings.HasSuffix(it, ")"):
 			e, err := ParseExpr(it[5 : len(it)-1])
 			if err != nil {
@@ -396,6 +406,12 @@ func ParseContracts(P *Program) (*Contracts, error) {
 				} else {
 					cur.Trust = append(cur.Trust, rest)
 				}
+			case "noalloc":
+				cur.NoAlloc = true
+			case "safety":
+				cur.Safety = strings.Fields(rest)
+			case "functional":
+				cur.Functional = strings.TrimSpace(rest)
 			case "callsonce":
 				cur.CallsOnce = strings.TrimSpace(rest)
 			case "repeats":
@@ -577,6 +593,31 @@ func (C *Contracts) ResolveType(P *Program, pkgPath, ty string) (types.Type, err
 	case "float32":
 		return types.Typ[types.Float32], nil
 	}
+	// unexported names of other repository packages: [*|[]]pkg.name
+	if m := reQualType.FindStringSubmatch(ty); m != nil {
+		for path, p := range C.Pkgs {
+			if p.Name() == m[2] && strings.HasPrefix(path, repoModule) {
+				if obj := p.Scope().Lookup(m[3]); obj != nil {
+					if tn, ok := obj.(*types.TypeName); ok && !tn.Exported() {
+						t := tn.Type()
+						pre := m[1]
+						for len(pre) > 0 {
+							if strings.HasSuffix(pre, "*") {
+								t = types.NewPointer(t)
+								pre = pre[:len(pre)-1]
+							} else if strings.HasSuffix(pre, "[]") {
+								t = types.NewSlice(t)
+								pre = pre[:len(pre)-2]
+							} else {
+								break
+							}
+						}
+						return t, nil
+					}
+				}
+			}
+		}
+	}
 	pkg := C.Pkgs[pkgPath]
 	if pkg == nil {
 		return nil, fmt.Errorf("no package %s for type %s", pkgPath, ty)
@@ -594,3 +635,5 @@ func (C *Contracts) ResolveType(P *Program, pkgPath, ty string) (types.Type, err
 	}
 	return tv.Type, nil
 }
+
+var reQualType = regexp.MustCompile(`^((?:\*|\[\])*)([A-Za-z_]\w*)\.([A-Za-z_]\w*)$`)
